@@ -64,34 +64,51 @@ Proof. vm_compute. reflexivity. Qed.
 
 (* ---- clause 1, responses.  [bodiless] = RFC 7230 3.3.3 rule 1 (response to HEAD, 1xx, 204, 304): no octet may follow
    the header section.  FULL for the repaired behaviour (D29); for the pinned tree the bodiless x chunked case is excluded
-   (partial) and refuted by a witness. *)
-Theorem C05_response_framing : forall (C : ccallees) (vc : variant) (now : bytes) (r r' : response),
-  lsplit_clean C -> resp_ok r = true -> rd_no_crlf now = true -> r_prepare C Repaired now r = Some r' ->
+   (partial) and refuted by a witness.  [v59] = behaviour towards a content codec left on the Body object by an earlier prepare of the
+   same message (finding D59): [resp_ok AsFound] demands that the Body carries a codec only when the Content-Encoding field is present
+   (partial, refuted by a witness below); [resp_ok Repaired] admits every codec state (prepare resets it when the field is absent). *)
+Theorem C05_response_framing : forall (C : ccallees) (v59 vc : variant) (now : bytes) (r r' : response),
+  lsplit_clean C -> resp_ok v59 r = true -> rd_no_crlf now = true -> r_prepare C v59 Repaired now r = Some r' ->
   let bodiless := r_bodiless (r_code r) (r_rmethod r) in
   exists fr, framed_as false bodiless (fst (r_compose C vc r'))
     (StartLine.proto_compose (r_version r) ++ SP :: StartLine.print_dec (r_code r) ++ SP :: r_reason r) fr
     (if bodiless then [] else concat_bytes (encode_pieces C vc (b_codec (r_body r')) (r_sent_pieces r))) /\
     (fr <> FChunked -> bodiless = false -> b_codec (r_body r') = None).
-Proof. intros C vc now r r' HC Hok Hn Hp. exact (response_framing C HC Repaired vc now r r' Hok Hn Hp (or_introl eq_refl)). Qed.
+Proof. intros C v59 vc now r r' HC Hok Hn Hp. exact (response_framing C HC v59 Repaired vc now r r' Hok Hn Hp (or_introl eq_refl)). Qed.
 Print Assumptions C05_response_framing.
-Theorem C05_response_framing_asfound_partial : forall (C : ccallees) (vc : variant) (now : bytes) (r r' : response),
-  lsplit_clean C -> resp_ok r = true -> rd_no_crlf now = true -> r_prepare C AsFound now r = Some r' ->
+Theorem C05_response_framing_asfound_partial : forall (C : ccallees) (v59 vc : variant) (now : bytes) (r r' : response),
+  lsplit_clean C -> resp_ok v59 r = true -> rd_no_crlf now = true -> r_prepare C v59 AsFound now r = Some r' ->
   let bodiless := r_bodiless (r_code r) (r_rmethod r) in
   (bodiless = false \/ hmem H_TE (r_hdrs r') = false) ->
   exists fr, framed_as false bodiless (fst (r_compose C vc r'))
     (StartLine.proto_compose (r_version r) ++ SP :: StartLine.print_dec (r_code r) ++ SP :: r_reason r) fr
     (if bodiless then [] else concat_bytes (encode_pieces C vc (b_codec (r_body r')) (r_sent_pieces r))) /\
     (fr <> FChunked -> bodiless = false -> b_codec (r_body r') = None).
-Proof. intros C vc now r r' HC Hok Hn Hp bodiless Hv. exact (response_framing C HC AsFound vc now r r' Hok Hn Hp (or_intror Hv)). Qed.
+Proof. intros C v59 vc now r r' HC Hok Hn Hp bodiless Hv. exact (response_framing C HC v59 AsFound vc now r r' Hok Hn Hp (or_intror Hv)). Qed.
 Print Assumptions C05_response_framing_asfound_partial.
 Theorem C05_head_chunked_refuted :
-  resp_ok D29_response = true /\
-  exists r', r_prepare C_plain AsFound D29_now D29_response = Some r' /\
+  resp_ok AsFound D29_response = true /\
+  exists r', r_prepare C_plain AsFound AsFound D29_now D29_response = Some r' /\
              forall pl, ~ wf_http1 false true (fst (r_compose C_plain AsFound r')) pl.
 Proof. exact head_chunked_refuted. Qed.
 Print Assumptions C05_head_chunked_refuted.
+(* finding D59 on the tree as found: without the codec precondition the framing theorem is false.  The Body object still carries the
+   codec of an earlier use, the header collection has no Content-Encoding: prepare announces Content-Length 6 (the content), compose
+   sends the coded stream - not one well-formed message.  After the repair the same object composes to a well-framed message. *)
+Theorem C05_stale_coding_refuted :
+  resp_ok Repaired D59_response = true /\ resp_ok AsFound D59_response = false /\
+  exists r', r_prepare C_mark AsFound Repaired D29_now D59_response = Some r' /\
+             hget H_CL (r_hdrs r') = Some (X "36") /\ hget H_CE (r_hdrs r') = None /\ b_codec (r_body r') = Some 1 /\
+             forall pl, ~ wf_http1 false false (fst (r_compose C_mark AsFound r')) pl.
+Proof. exact stale_coding_refuted. Qed.
+Print Assumptions C05_stale_coding_refuted.
+Theorem C05_stale_coding_repaired_example :
+  exists r', r_prepare C_mark Repaired Repaired D29_now D59_response = Some r' /\ b_codec (r_body r') = None /\
+             wf_http1 false false (fst (r_compose C_mark AsFound r')) (X "7365636f6e64").
+Proof. exact stale_coding_repaired_example. Qed.
+Print Assumptions C05_stale_coding_repaired_example.
 Example C05_resp_ok_nonvacuous :
-  resp_ok {| r_version := (1, 0); r_code := 404; r_reason := X "4e6f7420466f756e64"; r_rmethod := X "474554";
+  resp_ok AsFound {| r_version := (1, 0); r_code := 404; r_reason := X "4e6f7420466f756e64"; r_rmethod := X "474554";
              r_hdrs := [(H_CE, X "677a6970"); (X "45546167", X "2261bf22")];
              r_body := {| b_src := SFile (X "68656c6c6f") 3; b_chunked := false; b_codec := None; b_ctype := X "746578742f706c61696e"; b_trailer := [] |} |} = true.
 Proof. vm_compute. reflexivity. Qed.
